@@ -642,7 +642,7 @@ def solve_cases(draw, tier):
     # how each equation is written: which terms are moved to the right-hand side
     moved = [draw(st.lists(st.integers(0, n - 1), max_size=2, unique=True)) if draw(st.integers(0, 2)) == 0 else []
              for _ in range(ne + 1)]
-    scheme = draw(E.naming_schemes(n, max_index=8))
+    scheme = draw(E.naming_schemes(n, max_index=8, extra_names=draw(st.sampled_from([3, 3, 9]))))     # (name lists of 11 and more entries too)
     style = {'minus': draw(st.booleans()), 'unit': draw(st.booleans())}
     target = None
     if draw(st.integers(0, 1)) == 0:
@@ -759,6 +759,12 @@ def run_solve(case, ctx):
         ctx.exclude('solve-no-result'); ctx.label('no-result:empty')
         return
     lines = E.text_lines(out)
+    import re as _re
+    alien = sorted(set(_re.findall(r'[A-Za-z_][A-Za-z_0-9]*', out)) - set(names) - set(dir(math)) - {'inf', 'nan', 'abs', 'min', 'max'})
+    if not ctx.expect(not alien, 'C12.solve_names',
+                      lambda: dict(input=text, output=out, variables=variables, unknown_names=alien,
+                                   note='the solved form mentions names that are not variables of the system')):
+        return
     ctx.label('solved-lines:%s' % ('=eqs' if len(lines) == ne else '<eqs' if len(lines) < ne else '>eqs'))
     sol = FL(case['sol'])
     # sympy solves in floats without pivoting for accuracy: the printed solved form of a badly scaled system
